@@ -235,6 +235,12 @@ func (e *zzC12Env) files() []string {
 			names = append(names, e.mapsDir+"/"+ent.Name())
 		}
 		names = append(names, e.cfgDir+"/haproxy.cfg")
+		cfgs, _ := os.ReadDir(e.cfgDir)
+		for _, ent := range cfgs {
+			if strings.HasPrefix(ent.Name(), "haproxy5-backend") {
+				names = append(names, e.cfgDir+"/"+ent.Name())
+			}
+		}
 	}
 	sort.Slice(names, func(i, j int) bool { return zzC12Base(names[i]) < zzC12Base(names[j]) })
 	return names
@@ -303,9 +309,13 @@ func (e *zzC12Env) pending(change int) {
 // every file as the fault-free update of the twin did: a failed write is never swallowed.
 func VerifC12_FileFault() {
 	zzEnvs = nil
-	a := zzC12Setup()
+	shards := nd.Param("SHARDS", 0)
+	if shards > 0 {
+		zzShardWriter = zzC05ShardWrite
+	}
+	a := zzC12SetupWith(InstanceOptions{BackendShards: shards})
 	defer a.cleanup()
-	b := zzC12Setup()
+	b := zzC12SetupWith(InstanceOptions{BackendShards: shards})
 	defer b.cleanup()
 	for _, e := range []*zzC12Env{a, b} {
 		e.addApp("d1", "10.0.0.1")
@@ -332,6 +342,35 @@ func VerifC12_FileFault() {
 		nd.Reach("unreported")
 	} else {
 		nd.Reach("reported")
+		// the retry: nothing new in the batch, no fault; afterwards every file is what the
+		// fault-free twin wrote and a reload was asked for after they were written
+		before := a.reload.requests
+		errR := a.inst.HAProxyUpdate(utils.NewTimer(nil))
+		nd.Assert(errR == nil, "retry-succeeds")
+		// every file of the twin exists with the same content; a file the twin never wrote (the
+		// retry rewrites every shard, also the empty ones) defines nothing
+		files2, twin2 := a.files(), b.files()
+		for _, f := range files2 {
+			var peer string
+			for _, t := range twin2 {
+				if zzC12Base(t) == zzC12Base(f) {
+					peer = t
+				}
+			}
+			if peer != "" {
+				nd.Assert(a.content(f) == b.content(peer), "retry-brings-every-file-to-the-current-state")
+			} else {
+				nd.Assert(!a.fileMentions(f, "backend ") && !a.fileMentions(f, "server "), "file-unknown-to-the-twin-defines-nothing")
+			}
+		}
+		for _, t := range twin2 {
+			found := false
+			for _, f := range files2 {
+				found = found || zzC12Base(t) == zzC12Base(f)
+			}
+			nd.Assert(found, "retry-leaves-no-file-missing")
+		}
+		nd.Assert(a.reload.requests > before, "retry-ends-with-a-reload-request")
 	}
 	nd.Reach("end")
 }
